@@ -171,7 +171,16 @@ func (u *Unit) specLoad(st *State, pv Val) (Val, error) {
 	for i, l := range locs {
 		ts[i] = u.readLoc(st, l)
 	}
-	return Val{T: target, Terms: ts}, nil
+	v := Val{T: target, Terms: ts}
+	if len(locs) > 0 {
+		// Go-side knowledge about the value stored in this cell (closure identity, dynamic type)
+		if iv, ok := st.info["H"+p.Ref+"|"+p.Idx+"|"+locs[0].comp+"|"+st.heap[locs[0].comp]]; ok && len(iv.Terms) == len(ts) {
+			iv.T = target
+			iv.Terms = ts
+			v = iv
+		}
+	}
+	return v, nil
 }
 
 func (u *Unit) findLocal(fr *Frame, name string) *ssa.Alloc {
@@ -382,7 +391,13 @@ func (u *Unit) evalInner(st *State, env *SpecEnv, e *Spec) (Val, error) {
 						return u.specLoad(st, pv)
 					}
 					if cells, ok := u.frameOf(st, env.fr).locals[a]; ok {
-						return Val{T: derefType(a.Type()), Terms: append([]Term(nil), cells...)}, nil
+						lv := Val{T: derefType(a.Type()), Terms: append([]Term(nil), cells...)}
+						// Go-side knowledge about the value in the cell (closure identity, dynamic type)
+						if iv, ok := st.info[fmt.Sprintf("L%p", a)]; ok && sameTerms(iv.Terms, lv.Terms) {
+							iv.T = lv.T
+							return iv, nil
+						}
+						return lv, nil
 					}
 				}
 				// not yet allocated on this path: zero value
